@@ -416,7 +416,10 @@ def subchecks(tier):
     S.append(SubCheck("nntucker_mu/svd", _tucker_case(("svd",)), o_tucker_mu, quick=250, thorough=2000, discard_exc=LIN))
     for alg in ("fista", "active_set"):
         # signed data can drive a whole factor to zero (N1 for fista): kept apart from non-negative data
-        for dk, kinds in (("nonneg_data", NONNEG_KINDS), ("signed_data", SIGNED_KINDS)):
+        # active set: all-negative data always ends in a zero factor and a singular solve (LinAlgError = discard),
+        # so that class gets a lower weight there to keep the discard rate well below 50 %
+        signed = SIGNED_KINDS if alg == "fista" else ("normal", "normal", "sparse", "int", "int", "lowrank", "allneg")
+        for dk, kinds in (("nonneg_data", NONNEG_KINDS), ("signed_data", signed)):
             S.append(SubCheck(f"nntucker_hals/{alg}/random_user/{dk}", _tucker_case(("random", "user"), True, alg, kinds),
                               o_tucker_hals, quick=120, thorough=1000, discard_exc=LIN))
         S.append(SubCheck(f"nntucker_hals/{alg}/svd", _tucker_case(("svd",), True, alg), o_tucker_hals,
